@@ -48,7 +48,10 @@ Definition rd_u16 : reader Z := fun bs =>
 (* Vec<u8>: u32 length, then that many bytes (checked against the remaining input first) *)
 Definition rd_vec_u8 : reader bytes := fun bs =>
   match rd_u32 bs with
-  | Ok (n, r) => take_n (Z.to_nat n) r
+  | Ok (n, r) =>
+      (* compare in Z first: the length prefix is attacker-chosen (up to 2^32-1) and must never be
+         turned into a unary nat unless it is backed by input *)
+      if n <=? Z.of_nat (length r) then take_n (Z.to_nat n) r else Err
   | Err => Err | Panic => Panic
   end.
 
@@ -70,7 +73,7 @@ Fixpoint rd_n {A} (rd : reader A) (n : nat) : reader (list A) := fun bs =>
    verdict the loop reaches (it runs out of input), see Proofs/Codec.v. *)
 Definition rd_vec {A} (minsz : nat) (rd : reader A) : reader (list A) := fun bs =>
   match rd_u32 bs with
-  | Ok (n, r) => if (Z.to_nat n * minsz <=? length r)%nat then rd_n rd (Z.to_nat n) r else Err
+  | Ok (n, r) => if n * Z.of_nat minsz <=? Z.of_nat (length r) then rd_n rd (Z.to_nat n) r else Err
   | Err => Err | Panic => Panic
   end.
 
